@@ -349,6 +349,7 @@ func DNSCaching(ttl time.Duration) func(*Attacker) {
 				}()
 			}
 
+			var rngMu sync.Mutex // rand.Rand is not safe for concurrent use
 			rng := rand.New(rand.NewSource(time.Now().UnixNano()))
 
 			tr.DialContext = func(ctx context.Context, network, addr string) (conn net.Conn, err error) {
@@ -371,7 +372,9 @@ func DNSCaching(ttl time.Duration) func(*Attacker) {
 
 				// The resolver hands out its cached slice: work on a copy.
 				ips = append([]string(nil), ips...)
+				rngMu.Lock()
 				rng.Shuffle(len(ips), func(i, j int) { ips[i], ips[j] = ips[j], ips[i] })
+				rngMu.Unlock()
 
 				ips = firstOfEachIPFamily(ips)
 
